@@ -137,29 +137,6 @@ def loopAttrM (l : LoopM) (name : String) : Val × LoopM :=
   | "nextitem" => l.peek
   | _ => (.undef, l)
 
-/-- `Macro::prepare_args`: positional / keyword arguments against the argument names; the hidden
-`caller` keyword is accepted by macros that reference it -/
-def prepareArgs (argSpec : List String) (callerRef : Bool) (args : List Val) : Res (List Val × Option Val) :=
-  let (pos, kw) : List Val × Option (List (String × Val)) := match args.getLast? with
-    | some (.kwargs kvs) => (args.dropLast, some kvs)
-    | _ => (args, none)
-  if pos.length > argSpec.length then .error .tooManyArgs
-  else
-    let kws := kw.getD []
-    let bound : Res (List Val) := (argSpec.zipIdx).foldr (fun (name, i) acc =>
-      match acc with
-      | .error e => .error e
-      | .ok vs => match pos[i]?, assocGet name kws with
-        | some _, some _ => .error .tooManyArgs
-        | some a, none => .ok (a :: vs)
-        | none, some k => .ok (k :: vs)
-        | none, none => .ok (.undef :: vs)) (.ok [])
-    match bound with
-    | .error e => .error e
-    | .ok vs =>
-      if kws.any (fun p => !(argSpec.contains p.1) && !(callerRef && p.1 == "caller")) then .error .tooManyArgs
-      else .ok (vs, if callerRef then some ((assocGet "caller" kws).getD .undef) else none)
-
 def popN (n : Nat) (stack : List Val) : Option (List Val × List Val) :=
   if n ≤ stack.length then some ((stack.take n).reverse, stack.drop n) else none
 
@@ -260,7 +237,7 @@ def callM : Nat → Scope → List Instr → Val → List Val → StateM → Res
   | fuel + 1, ctx, code, f, args, s =>
     match f with
     | .vmMacro _ spec offset closure callerRef =>
-      match prepareArgs spec callerRef args with
+      match MJ.Vm.prepareArgs spec callerRef args with
       | .error e => .error e
       | .ok (vals, caller) =>
         let frame : FrameM := { closureCtx := closure,
